@@ -727,6 +727,7 @@ class Mailbox:
         #
         self.executing_tasks = []
         while True:
+            imap_cmd: IMAPClientCommand | None = None
             try:
                 # Block until we have an IMAP Command that wants to run on this
                 # mailbox.
@@ -821,6 +822,13 @@ class Mailbox:
                     self.name,
                     e,
                 )
+                # The command we were preparing can not run. Hand it the
+                # exception so it fails right away instead of waiting forever
+                # for a `ready` that will never come.
+                #
+                if imap_cmd is not None and not imap_cmd.ready.is_set():
+                    imap_cmd.mgmt_exception = e
+                    imap_cmd.ready.set()
 
     ####################################################################
     #
